@@ -255,7 +255,7 @@ def run(ctx):
         lay = False
         for bi, t, e in sb:
             cf, _ = q.closure_of(lib, e[2][1])
-            lay = cf is not None and (short(cf.name) == 'num_actions' or any(short(p) == 'num_actions' for _, _, p in cf.calls())) and q.find_sub(e[2][1], lambda x: x[0] == 'param' and x[1] == 2) is not None
+            lay = q.maps_num_actions(lib, cf) and q.find_sub(e[2][1], lambda x: x[0] == 'param' and x[1] == 2) is not None
         ctx.verdict(lay, 'C14.layout', 'C14.layout:%s:partition' % nm, 'the dense vector is partitioned by num_actions of the same infoset table the indices were allocated from', f.where(sb[0][0]) if sb else f.where(0), 'found: %s' % lay)
     # index allocation walks infos in order with a running counter
     rule = 'C14.layout'
@@ -291,7 +291,7 @@ def run(ctx):
         for l, incs in counters:
             for bi, step in incs:
                 s = strip_refs(step)
-                unit = is_const(s, 1) or q.is_call(s, 'num_actions')
+                unit = is_const(s, 1) or q.is_num_actions(s)
                 in_infos_loop = any(q.find_sub(c['a'], lambda x: x[0] == 'param' and x[1] == 2) is not None for c in f.conds(bi) if c['kind'] == 'variant' and c['variants'] == ['Some'])
                 if unit and in_infos_loop:
                     ok = True
@@ -308,7 +308,7 @@ def run(ctx):
                     if tgt[0] != 'upvar' or not (r[0] == 'bin' and r[1] == 'Add' and strip_refs(r[2]) == tgt):
                         continue
                     step = strip_refs(r[3])
-                    unit = is_const(step, 1) or q.is_call(step, 'num_actions')
+                    unit = is_const(step, 1) or q.is_num_actions(step)
                     cap = strip_refs(agg[2][tgt[1]]) if tgt[1] < len(agg[2]) else None
                     init0 = cap is not None and cap[0] == 'var' and any(d[0] == 'assign' and d[1] not in () and is_const(f.rvalue_expr(d[3], d[1]), 0) for d in f.defs.get(cap[1], []))
                     # the closure is mapped over an iteration of the infoset table (parameter 2)
@@ -323,6 +323,25 @@ def run(ctx):
                         ok = True
                         ctx.touch(cf)
                         detail = 'counter captured by the closure mapped over the infoset table starts at 0 and advances by %s' % facts.show(step)[:30]
+        if not ok:
+            # the same walk as `infos.iter().scan(0, |next, info| { let start = *next; *next += info.num_actions(); Some(start) })`
+            for bj, t, e in q.calls_named(f, 'scan'):
+                if len(e[2]) != 3 or not is_const(strip_refs(e[2][1]), 0) or q.find_sub(e[2][0], lambda x: x[0] == 'param' and x[1] == 2) is None:
+                    continue
+                cf, _ = q.closure_of(lib, e[2][2])
+                if cf is None or not cf.is_closure:
+                    continue
+                for bi, st, pl, rhs in q.stores(cf):
+                    tgt = strip_refs(pl)
+                    r = strip_refs(rhs)
+                    if r[0] == 'field' and strip_refs(r[1])[0] == 'bin':
+                        r = strip_refs(r[1])
+                    if tgt[0] == 'param' and tgt[1] == 2 and r[0] == 'bin' and r[1] in ('Add', 'AddWithOverflow') and strip_refs(r[2]) == tgt:
+                        step = strip_refs(r[3])
+                        if is_const(step, 1) or q.is_num_actions(step):
+                            ok = True
+                            ctx.touch(cf)
+                            detail = 'scan state starts at 0 and advances by %s per infoset of the table' % facts.show(step)[:30]
         ctx.verdict(ok, rule, '%s:%s:running-counter' % (rule, nm), 'dense indices are allocated by one walk over the infoset table in order, with a counter that starts at 0 and advances by one per action (or num_actions per infoset)', f.where(0), detail,
                     breaks='import and export disagree on the layout of the dense vector')
     # ---------------- player wiring of the public entry points
